@@ -80,6 +80,40 @@ def run(tier, seed):
             trace.append(dict(e="wrap", null=null, fmt=docs.FMTNAME[fmn], ext=x, body=bn, m=blocks[bi]["m"], occurs=(full or b"").count(core) if core else 1, full_len=len(full or b""), snip_len=len(snip or b""),
                               dflt=project.fnv(out or b""), full=project.fnv(full or b""), snip=project.fnv(snip or b""), src=blocks[bi]["src"]))
             n += 1
+    # the editor's flow: one engine (created on a DString the caller keeps editing) converts text after text: block A + body, then block B + body ...
+    byset = {}
+    for bi_, b_ in enumerate(blocks): byset.setdefault(tuple(b_["m"]), bi_)
+    walks = []
+    singles = [bi_ for bi_ in range(len(blocks)) if len(blocks[bi_]["m"]) == 1]
+    nometa_ = [bi_ for bi_ in range(len(blocks)) if not blocks[bi_]["m"]][:1]
+    title_ = [bi_ for bi_ in singles if blocks[bi_]["m"] == [8]][:1]
+    for a_ in singles:
+        for b2_ in nometa_ + title_: walks.append([a_, b2_, a_])
+    for k_ in range(0, len(singles) - 1, 2): walks.append([singles[k_], singles[k_ + 1], singles[k_]])
+    two_ = [bi_ for bi_ in range(len(blocks)) if len(blocks[bi_]["m"]) == 2]
+    for a_ in two_[:: max(1, len(two_) // (12 if tier == "quick" else 60))]: walks.append([a_] + nometa_ + [a_] + title_)
+    esegs = []; emeta = []
+    for wi, w_ in enumerate(walks):
+        for bn in ("heads", "notes"):
+            f = FM[(wi + len(bn)) % len(FM)]; xn, x = exts[wi % 3]
+            s = ["seg\tedit", "wantout\t0"]
+            for k_, bi_ in enumerate(w_): s.append(line("src", "t%d" % k_, sx((blocks[bi_]["src"] + bodies[bn]).encode("utf-8"))))
+            for k_ in range(len(w_)): s.append(line("conv", "s_conv", "t%d" % k_, docs.FMT[f], x | E["SNIPPET"], 0))
+            s.append(line("e_new", 0, "t0", x | E["SNIPPET"], 0)); s.append(line("e_conv", 0, docs.FMT[f]))
+            for k_ in range(1, len(w_)): s += [line("e_settext", 0, "t%d" % k_), line("e_conv", 0, docs.FMT[f])]
+            s.append(line("e_free", 0))
+            esegs.append(s); emeta.append((w_, bn, f, x))
+    eres = run_harness(exe, esegs, timeout=60)
+    nedit = 0
+    for (w_, bn, f, x), seg, r in zip(emeta, esegs, eres):
+        if r["status"] != "ok": problems.append(("crash", seg, r)); continue
+        cv = [ev for ev in r["events"] if ev.get("e") == "conv"]
+        trace.append(dict(e="reset"))
+        if len(cv) != 2 * len(w_): raise FrameworkError("editor flow: %d conversions recorded for a walk of %d" % (len(cv), len(w_)))
+        for k_, ev in enumerate(cv):
+            st_ = k_ % len(w_)
+            trace.append(dict(e="rebody", fresh=k_ < len(w_), null=ev["null"], fmt=f, ext=x, body="edit:" + bn, m=blocks[w_[st_]]["m"], snip=ev["digest"], step=st_, walk=[blocks[q_]["m"] for q_ in w_], src=blocks[w_[st_]]["src"])); nedit += 1
+    chk.cov["editor_flow_conversions"] = nedit
     # the command line: -f / -s (and neither) together with the switches that choose the extension set -- the same relation, judged by the same monitor
     import subprocess, concurrent.futures, shutil
     cli = build.build_cli(); wd = scratch("c20")
@@ -124,6 +158,12 @@ def run(tier, seed):
     for seg, idx in rejected:
         ev = seg[idx]
         keys = [["bhl", "hhl", "lhl", "lang", "qlang", "lmode", "bibtex", "title", "author", "custom", "css", "date", "mmdfooternote", "mmdheaderstyle"][k - 1] for k in ev["m"]]
+        if ev["e"] == "rebody":
+            key = "body-depends-on-earlier-text:%s:%s" % (ev["fmt"], "+".join(sorted(keys)))
+            if key in seen: seen[key] += 1; continue
+            seen[key] = 1
+            chk.report(key, "one engine whose text is edited (blocks %s in turn, body %s, format %s): at step %d the body rendered for block %r is not the body a fresh conversion of the same text gives" % (ev["walk"], ev["body"], ev["fmt"], ev["step"], ev["src"]), dict(walk=ev["walk"], body=ev["body"], fmt=ev["fmt"], ext=ev["ext"], step=ev["step"]))
+            continue
         if ev["null"]: what = "no-result"
         elif ev["occurs"] < 1: what = "snippet-not-in-complete"
         elif ev["full_len"] <= ev["snip_len"]: what = "complete-adds-nothing"
